@@ -51,14 +51,17 @@ pub fn gen_text(r: &mut Rng, u: &Universe) -> String {
             2 | 3 | 4 | 5 => {
                 let (c, m) = class_method(r, u);
                 let ind = *r.pick(&["    ", "\t", "  ", "", "\u{a0}", " \t "]);
-                format!("{}at {}.{}({}:{})", ind, c, m, r.pick(&["SourceFile", "Foo.java", "", "a:b"]), line_no(r, u))
+                let c = if r.chance(1, 20) { format!("{}{}", r.pick(&["app//", "java.base/", "app/mod@1.0/"]), c) } else { c };
+                format!("{}at {}.{}({}:{})", ind, c, m, r.pick(&["SourceFile", "Foo.java", "", "a:b", "Worker (1).java", "W(gen).kt", "R8$$SyntheticClass"]), line_no(r, u))
             }
             6 | 7 => {
                 let c = class_name(r, u);
+                // other spellings of the marker are plain text
+                let marker = if r.chance(1, 8) { *r.pick(&["Caused By: ", "caused by: ", "CAUSED BY: ", "Caused by:", " Caused by: ", "Caused  by: "]) } else { "Caused by: " };
                 if r.chance(1, 2) {
-                    format!("Caused by: {}: {}", c, r.pick(MESSAGES))
+                    format!("{}{}: {}", marker, c, r.pick(MESSAGES))
                 } else {
-                    format!("Caused by: {}", c)
+                    format!("{}{}", marker, c)
                 }
             }
             8 => format!("    ... {} more", r.below(20)),
@@ -108,6 +111,10 @@ fn is_ident(s: &str) -> bool {
 fn canon_class(r: &mut Rng, u: &Universe) -> String {
     let c = class_name(r, u);
     if is_ident(&c) {
+        // Java 9+ module / loader prefixes are part of the class name
+        if r.chance(1, 25) {
+            return format!("{}{}", r.pick(&["app//", "java.base/", "m@1/"]), c);
+        }
         c
     } else {
         "x.Unknown".to_string()
@@ -226,4 +233,49 @@ pub fn gen_signature(r: &mut Rng, u: &Universe) -> String {
         1 => r.pick(&["", "(", ")", "()", "()V", "(L", "(La;", "(La;)", "(Lé", "(Lé)V", "(Iaé)V", "V", "(I)Lé;", "(I)L;", "(I)L", "([)V", "(é)é", "(I)[", "x(I)V"]).to_string(),
         _ => s,
     }
+}
+
+/// a typed trace as constructor tokens for the YA operation: frames by line and by parameters, with the
+/// same call site repeated next to itself under other parameters / lines / files
+pub fn gen_typed_ast(r: &mut Rng, u: &Universe) -> String {
+    let hx = |s: &str| hex(s.as_bytes());
+    let mut toks: Vec<String> = Vec::new();
+    let levels = 1 + r.below(3);
+    let mut args: Vec<String> = u.args.clone();
+    args.push(String::new());
+    args.push("no.such.Type".into());
+    for d in 0..levels {
+        if d > 0 {
+            toks.push("c".into());
+        }
+        if r.chance(2, 3) {
+            let c = class_name(r, u);
+            let msg = if r.chance(1, 2) { hx(*r.pick(MESSAGES)) } else { "~".into() };
+            toks.push(format!("e:{}:{}", hx(&c), msg));
+        }
+        // a small pool of call sites so that neighbours repeat
+        let pool: Vec<(String, String)> = (0..1 + r.below(3)).map(|_| class_method(r, u)).collect();
+        for _ in 0..r.below(8) {
+            let (c, m) = r.pick(&pool).clone();
+            if c.contains(':') || m.contains(':') {
+                continue;
+            }
+            if r.chance(2, 5) {
+                toks.push(format!("p:{}:{}:{}", hx(&c), hx(&m), hx(r.pick(&args).as_str())));
+            } else {
+                let line = match r.below(4) {
+                    0 => 0,
+                    1 if !u.numbers.is_empty() => *r.pick(&u.numbers),
+                    _ => r.below(12),
+                };
+                let file = match r.below(4) {
+                    0 => "~".to_string(),
+                    1 => hx("R8$$SyntheticClass"),
+                    _ => hx(*r.pick(&["SourceFile", "Foo.java"])),
+                };
+                toks.push(format!("f:{}:{}:{}:{}", hx(&c), hx(&m), file, line));
+            }
+        }
+    }
+    toks.join(" ")
 }
